@@ -388,7 +388,7 @@ def g_classdef(R, tier):
                 got_no_dec = [x for x in order if x != (tagstr(DEC.items[0].tag))]
                 exp_no_dec = [x for x in exp if x != (tagstr(DEC.items[0].tag))]
                 R.check(f"{base}[{meta}]/decorators-evaluated-before-the-inheritance-list/{sig}",
-                        (order[:1] == exp[:1]) if not c13._provably_zero(c, DEC.length) else True, f"evaluated {order}, Python: {exp}")
+                        (order[:1] == exp[:1]) if not c13._provably_zero(c, DEC.length) else True, f"evaluated {order}, Python: {exp}", replay=dict(kind="src", src=_CLASS_DECO_SRC, expect="same-globals"))
                 R.check(f"{base}[{meta}]/bases-then-keywords-in-source-order", got_no_dec == exp_no_dec, f"evaluated {order}, Python: {exp}",
                         replay=dict(kind="src", src="log = []\ndef e(n, v):\n    log.append(n)\n    return v\nclass M(type):\n    def __new__(m, n, b, d, **k):\n        return super().__new__(m, n, b, d)\n    def __init__(c, n, b, d, **k):\n        pass\nclass B: pass\nclass C(e('base', B), x=e('x', 1), metaclass=e('meta', M), y=e('y', 2)):\n    pass\n", expect="same-globals"))
                 if not c13._provably_zero(c, DEC.length):
@@ -399,12 +399,17 @@ def g_classdef(R, tier):
                     rebound = bool(top) and top[-1][0] == "store" and top[-1][2] == "C"
                     R.check(f"{base}[{meta}]/class-decorators-evaluated-and-applied/{sig}", ndec == 1 and len(applied) == 1 and rebound,
                             f"decorator expressions evaluated {ndec} times, applied bottom-up {len(applied)} times, class name rebound last: {rebound}",
-                            replay=dict(kind="src", src="def deco(c):\n    c.tag = 1\n    return c\n@deco\nclass C:\n    pass\nr = getattr(C, 'tag', None)\n", expect="same-globals"))
+                            replay=dict(kind="src", src=_CLASS_DECO_SRC, expect="same-globals"))
                 # each sub-expression exactly once, in the defining scope
                 scopes = {e[1] for e in flat if e[0] == "ev"}
                 R.check(f"{base}[{meta}]/header-evaluated-in-the-defining-scope/{sig}", scopes <= {"outer"}, repr(scopes))
             finally:
                 sym.set_ctx(None)
+
+
+_CLASS_DECO_SRC = ("log = []\ndef e(n, v):\n    log.append(n)\n    return v\ndef tag(t):\n    def deco(c):\n        c.tags = getattr(c, 'tags', ()) + (t,)\n        log.append('apply ' + t)\n        return c\n    return deco\n"
+                   "class B:\n    pass\n@e('d1', tag('one'))\n@e('d2', tag('two'))\n@tag('three')\nclass C(e('base', B)):\n    log.append('body')\n"
+                   "@tag('solo')\nclass D:\n    pass\nr = (C.tags, D.tags, log)\n")
 
 
 def g_assign_statement(R, tier):
